@@ -81,7 +81,7 @@ func (sim) Explain(prop string, st map[string]int64) string {
 	case "C04":
 		probes = []string{"probe.wallet-level-conversion", "probe.conversion-with-accounts-requested", "probe.reopened-after-conversion", "probe.secret-patterns-scanned"}
 	case "C16":
-		probes = []string{"probe.paid-last-index-of-window", "probe.spend-of-recovered-output", "probe.recovery-interrupted", "probe.recovery-interrupted-midway", "probe.lock-during-recovery",
+		probes = []string{"probe.paid-last-index-of-window", "probe.spend-of-recovered-output", "probe.spend-in-the-block-of-the-payment-it-spends", "probe.recovery-interrupted", "probe.recovery-interrupted-midway", "probe.lock-during-recovery",
 			"probe.recovery-locked", "probe.recovery-unlocked", "probe.batch-boundary-crossed", "probe.c16-checked", "probe.checked-after-resumed-recovery"}
 	case "C06":
 		probes = []string{"probe.two-senders-in-flight", "probe.spent-mature-coinbase", "probe.spent-unconfirmed-coin", "probe.explicit-ineligible:locked", "probe.explicit-ineligible:leased",
